@@ -24,11 +24,16 @@
 // # Curves
 //
 //	K256() P256() Pallas() Vesta()    y² = x³ + A·x + B over F_p           Kind WeierstrassFp, H = 1
+//	PallasMina() VestaMina()          the same two curves with Mina's generator (1, √6) — what the
+//	                                  library under test uses as its pasta generators
 //	BLS12381G1()                      y² = x³ + 4 over F_p                 Kind WeierstrassFp, H = 0x396c…aaab
 //	BLS12381G2()                      y² = x³ + 4(1+u) over F_p²           Kind WeierstrassFp2
 //	Ed25519()                         −x² + y² = 1 + d·x²·y²               Kind TwistedEdwards, H = 8
 //	Curve25519()                      v² = u³ + 486662·u² + u              Kind Montgomery (full (u,v) points), H = 8
-//	All() []*Curve, ByName(name) *Curve
+//	All() []*Curve (without the Mina variants), ByName(name) *Curve
+//
+// A curve with another generator can be made by a shallow copy: cc := *refcurve.Pallas(); cc.G = …
+// (no per-curve caches depend on G).
 //
 //	type Curve struct{ Name; Kind; P; A, B, A1, B1, D; N (prime subgroup order); H (cofactor); G; ByteLen }
 //	(c) Order() N, Cofactor() H, Generator() G, GroupOrder() H·N
